@@ -6,7 +6,7 @@ For each /verif/seeded/<id>/: git -C /repo apply patch.diff; run the quick check
 Prints one line per seed and exits 1 if a seed is no longer caught by its own property's check.
 """
 import os, sys, json, subprocess
-REPO = os.environ.get('DCMSTACK_REPO', REPO)
+REPO = os.environ.get('DCMSTACK_REPO', '/repo')
 VERIF = os.path.normpath(os.path.join(os.path.dirname(os.path.abspath(__file__)), '..', '..'))
 
 
